@@ -229,7 +229,11 @@ RULE = ("addr: every context over keys {a,b} of depth <= 2 with leaves {1,'b',No
         "neighbouring floats, the float rounded to 17..3 digits, int/str/bool confusions, strings that differ in a blank, the case, "
         "the last character, a homoglyph, an NFC/NFD form, a key renamed or moved one level, a member dropped/added/swapped, a "
         "list for a tuple); format_update_with/SetContext/UpdateContext with dictionary and list VALUES that hold formatting "
-        "strings; UpdateContext inserting (plain value / value=True source / default) tuples of lists, sets, tuples holding "
+        "strings; seed round K: format_update_with/SetContext with every string over '{', '}', 'a' of length 1..4 (thorough 5) that "
+        "holds a brace, and braces inside otherwise plain text ('[0, 1}', 'x}', '}}', '}{', 'set {1, 2}', ...) as VALUES - a string "
+        "without an opening brace is the given value, one with it a (possibly malformed) template - and UpdateContext with the "
+        "closing-brace-only strings as update x missing-key options; "
+        "UpdateContext inserting (plain value / value=True source / default) tuples of lists, sets, tuples holding "
         "dictionaries, frozensets, bytearrays, foreign objects with state - also through the heap model. "
         "Non-trivial: a present item is returned/rendered/changed, or a documented exception is raised.")
 CASE_TIMEOUT = 20
@@ -1309,6 +1313,27 @@ def _gen_round1(ctx, rng, thorough, items):
             for d in nd:
                 yield {"op": "fuw", "key": key, "value": v, "d": d}
             yield {"op": "setctx", "key": key, "value": v, "ctxs": nd}
+    # ---- format_update_with / SetContext / UpdateContext: string VALUES with braces anywhere (seed round K) --------------
+    # "the given value": a string without an opening brace is a plain value whatever closing braces it holds ("[0, 1}",
+    # "x}", "}}"); one with an opening brace is a template (rendered, or LenaValueError when malformed).  All strings over
+    # { '{', '}', 'a' } up to length 4 (5 in the thorough tier: every order of single / doubled / unbalanced braces), and
+    # braces inside otherwise plain text.
+    brace_strs = ["".join(t) for n in range(1, 6 if thorough else 5) for t in itertools.product("{}a", repeat=n)]
+    brace_strs = [s for s in brace_strs if "{" in s or "}" in s]
+    brace_strs += ["[0, 1}", "x}", "a}}b}", "} }", "interval [a, b} of x", "\\frac{a}{b}", "}}.}}", "a.b}", "}{ }{", "{{a}} }", "} {{a}}",
+                   "}} {{a.b}} }}", "{{a}}}}", "}}{{a}}", "{ }", "x {y", "set {1, 2}", "{{a}} {", "}\n}", "é}", "\"}\"", "}}}}}}"]
+    bd = [enc({"a": 1}), enc({"a": {"b": 2}, "o": "old"}), enc({})]
+    for s in brace_strs:
+        v = {"raw": s}
+        for key, d in (("a.b", bd[1]), ("o", bd[0]), ("a", bd[1]), ("b.a", bd[2])):
+            yield {"op": "fuw", "key": key, "value": v, "d": d}
+        yield {"op": "setctx", "key": "a.b", "value": v, "ctxs": bd}
+        yield {"op": "setctx", "key": "o", "value": v, "ctxs": bd[:1]}
+    uc_brace = [s for s in brace_strs if "{" not in s][:40] + ["}{", "x{", "{ }", "a}{b"]
+    for s in uc_brace:
+        for skip, rais in ((False, False), (True, False), (False, True)):
+            yield {"op": "uc", "args": {"subcontext": "a.b", "update": {"s": s}, "value": False, "skip": skip, "raise": rais,
+                                        "recursively": True}, "items": [None] + bd}
     for tag in DICT_TAGS:
         for d0 in (rng.sample(small, 8)):
             for o in (rng.sample(small, 3)):
